@@ -1,6 +1,7 @@
 package main
 
 import (
+	"strconv"
 	"syscall"
 	"fmt"
 	"os"
@@ -545,6 +546,95 @@ func c15Reread(msize uint32, dotu bool) Scenario {
 	}}
 }
 
+// c15AtDescriptorLimit: the server process cannot open one more file than it has open
+// (its descriptor limit is reached - clients holding many fids open do that). Listing
+// an open directory again from offset 0 still works: it needs no additional descriptor.
+func c15AtDescriptorLimit(dotu bool) Scenario {
+	name := fmt.Sprintf("dirread again from offset 0 with no spare descriptor dotu=%v", dotu)
+	return Scenario{Name: name, Run: func(rc *RunCtx) *Result {
+		res := &Result{Exhaustive: true}
+		base, root := scratchDir("c15d")
+		defer os.RemoveAll(base)
+		os.MkdirAll(filepath.Join(root, "dir"), 0o755)
+		want := []string{"a", "b", "c"}
+		for _, n := range want {
+			os.WriteFile(filepath.Join(root, "dir", n), []byte(n), 0o644)
+		}
+		var bad string
+		var names []string
+		var lim syscall.Rlimit
+		syscall.Getrlimit(syscall.RLIMIT_NOFILE, &lim)
+		body := func() {
+			h := newUfsH(root, 8216, dotu)
+			cl := h.Connect()
+			ver := "9P2000"
+			if dotu {
+				ver = "9P2000.u"
+			}
+			cl.Version(8216, ver)
+			cl.Rpc(tattach(1, 0, wire.NOFID, "", uint32(os.Geteuid()), dotu))
+			cl.Rpc(twalk(2, 0, 1, "dir"))
+			if r := cl.Rpc(&wire.Msg{Type: wire.Topen, Tag: 3, Fid: 1, Mode: 0}); r == nil || r.Type != wire.Ropen {
+				bad = "cannot open the directory"
+				return
+			}
+			if _, _, b := c15List(cl, dotu, 1, 8000, 10); b != "" {
+				bad = "first listing: " + b
+				return
+			}
+			// the lowest descriptor number not in use becomes the limit: nothing more can be opened
+			used := map[int]bool{}
+			if ents, err := os.ReadDir("/proc/self/fd"); err == nil {
+				for _, e := range ents {
+					if n, err := strconv.Atoi(e.Name()); err == nil {
+						used[n] = true
+					}
+				}
+			}
+			free := 0
+			for used[free] {
+				free++
+			}
+			// (the descriptor ReadDir itself used is closed again and may be the lowest free one)
+			if f, err := os.Open("/"); err == nil {
+				if int(f.Fd()) < free {
+					free = int(f.Fd())
+				}
+				f.Close()
+			}
+			low := lim
+			low.Cur = uint64(free)
+			if err := syscall.Setrlimit(syscall.RLIMIT_NOFILE, &low); err != nil {
+				bad = "harness: setrlimit: " + err.Error()
+				return
+			}
+			res.Evals++
+			var b string
+			names, _, b = c15List(cl, dotu, 1, 8000, 10)
+			syscall.Setrlimit(syscall.RLIMIT_NOFILE, &lim)
+			if b != "" {
+				bad = "with every descriptor the process may have in use, reading the open directory again from offset 0: " + b
+			}
+		}
+		x := vs.Run(nil, body, vs.Options{Horizon: 100000000})
+		syscall.Setrlimit(syscall.RLIMIT_NOFILE, &lim)
+		res.Nontrivial = res.Evals
+		if len(x.Panics) > 0 {
+			bad = "panic: " + x.Panics[0].Value
+		}
+		if bad == "" {
+			sort.Strings(names)
+			if strings.Join(names, ",") != strings.Join(want, ",") {
+				bad = fmt.Sprintf("with no spare descriptor the second listing is %v, the directory holds %v", names, want)
+			}
+		}
+		if bad != "" {
+			res.Findings = append(res.Findings, Finding{Sig: "C15/descriptor-limit/" + sigWords(bad), Msg: bad})
+		}
+		return res
+	}}
+}
+
 // c15LongTargets: entries far larger than a name allows - symbolic links whose target
 // (carried in the 9P2000.u stat record) is 0..hi bytes long, so that the record sizes
 // sweep every value up to well beyond 1024. Each directory {a, L -> target, z} is listed
@@ -847,6 +937,7 @@ func c15Scenarios(tier string) []Scenario {
 	out = append(out, c15Vanishing(3, all(3), 512, true), c15Vanishing(40, all(40), 4120, false))
 	out = append(out, c15ClientLongEntries(8216, true), c15ClientLongEntries(65560, true), c15ClientLongEntries(8216, false))
 	out = append(out, c15Reread(8216, false), c15Reread(256, true))
+	out = append(out, c15AtDescriptorLimit(false), c15AtDescriptorLimit(true))
 	// message sizes that are not a whole number of host blocks plus the header
 	out = append(out, c15ClientLongEntries(6000, true), c15ClientLongEntries(8000, true), c15ClientLongEntries(4300, true), c15ClientLongEntries(12345, false))
 	out = append(out, c15OddNames(8216, true), c15OddNames(4120, false))
